@@ -92,7 +92,7 @@ def classify_value(v, null_value=None):
     if isinstance(v, Instance):
         names = [c.name for c in v.cls.mro()]
         if "LongTypeForPython3" in names:
-            return "int"
+            return "py2-long"
         if "UnicodeForPython3" in names:
             return "text"
         return "instance:" + v.cls.name
@@ -136,7 +136,7 @@ def classify_value(v, null_value=None):
             if v.args[0] == "UnicodeForPython3":
                 return "text"
             if v.args[0] == "LongTypeForPython3":
-                return "int"
+                return "py2-long"
         if v.op == "index":
             base = v.args[0]
             if isinstance(base, Sym) and base.name == "internStrings":
